@@ -45,9 +45,20 @@ def concretise(job, unit, res, workdir, log):
         text, lw = R.lowered_text(ast, job['roots'], gspecs, cuts=job.get('cuts', ()), line_directives=False, drop_contracts=True)
         ghosts = job.get('ghosts', [])
         K = job.get('cex_K', 6)
-        hg = RP.HarnessGen(lw, fn, job['specs'][fn], ghosts, K=K)
-        hg.native_skip_ensures = bool(job.get('native_skip_ensures'))
-        htext = hg.build()
+        spec_fn = job['specs'][fn]
+        info = lw.fn_info[fn]
+        scalars = [nm for nm, t, isref in info['params'] if not t.derivs and not t.is_record()]
+        count_ids = []
+        for b in spec_fn.get('buffers', []):
+            if b[1] in scalars and b[1] not in count_ids:
+                count_ids.append(b[1])
+        import itertools
+        combos = [dict()]
+        if count_ids and not job.get('cex_nosplit'):
+            combos = [dict(zip(count_ids, v)) for v in itertools.product(range(K + 1), repeat=len(count_ids))]
+            combos.sort(key=lambda d: sum(d.values()))
+            # a precondition that pins a length makes most combinations vacuous; keep the list short
+            combos = combos[:64]
         stubs = ''
         stub_fns = []
         for cn, inf in lw.fn_info.items():
@@ -62,27 +73,52 @@ def concretise(job, unit, res, workdir, log):
         jd = os.path.join(workdir, 'cex_' + R.safe_name(job['name']))
         os.makedirs(jd, exist_ok=True)
         pre_c = '#ifdef QX_NATIVE\n' + job.get('native_pre', job.get('pre', '')) + '\n#else\n' + job.get('pre', '') + '\n#endif\n'
-        body_c = gtext + pre_c + '\n' + text + '\n' + job.get('extra', '') + '\n' + stubs + '\n' + htext
-        cfile = os.path.join(jd, 'cex.c')
-        with open(cfile, 'w') as f:
-            f.write('#ifdef QX_NATIVE\n' + RP.NATIVE_PRE + '#include "inputs.h"\n#else\n' + RP.CBMC_PRE + '#endif\n' + body_c +
-                    '\n#ifdef QX_NATIVE\nint main(void) { qx_harness(); return qx_failed; }\n#endif\n')
-        gb = os.path.join(jd, 'cex.gb')
-        rc, o, e, dt = R.sh(['goto-cc', '--function', 'qx_harness', cfile, '-o', gb], 120)
-        if rc != 0:
-            out['note'] = 'cex harness does not compile: ' + (e + o)[-800:]
-            return out
         flags, env = R.solver_flags('cadical', workdir)
-        cmd = ['cbmc', gb, '--json-ui', '--trace', '--unwind', str(job.get('cex_unwind', K + 4)), '--no-unwinding-assertions',
-               '--object-bits', str(job.get('objbits', 10)), '--no-malloc-may-fail'] + job.get('checks', R.DEFAULT_CHECKS) + flags
-        rc, o, e, dt = R.sh(cmd, job.get('cex_timeout', 180), env=env)
-        if rc not in (0, 10):
-            out['note'] = 'concretisation run failed rc=%s %s' % (rc, (e or o)[-300:])
+        found = {}
+        import threading
+        stop = threading.Event()
+
+        def attempt(ix_fixed):
+            ix, fixed = ix_fixed
+            if stop.is_set():
+                return None
+            hg = RP.HarnessGen(lw, fn, spec_fn, ghosts, K=K, fixed=fixed)
+            hg.native_skip_ensures = bool(job.get('native_skip_ensures'))
+            htext = hg.build()
+            body_c = gtext + pre_c + '\n' + text + '\n' + job.get('extra', '') + '\n' + stubs + '\n' + htext
+            cfile = os.path.join(jd, 'cex_%d.c' % ix)
+            with open(cfile, 'w') as f:
+                f.write('#ifdef QX_NATIVE\n' + RP.NATIVE_PRE + '#include "inputs.h"\n#else\n' + RP.CBMC_PRE + '#endif\n' + body_c +
+                        '\n#ifdef QX_NATIVE\nint main(void) { qx_harness(); return qx_failed; }\n#endif\n')
+            gb = os.path.join(jd, 'cex_%d.gb' % ix)
+            rc, o, e, dt = R.sh(['goto-cc', '--function', 'qx_harness', cfile, '-o', gb], 120)
+            if rc != 0:
+                return ('error', 'cex harness does not compile: ' + (e + o)[-800:])
+            cmd = ['cbmc', gb, '--json-ui', '--trace', '--unwind', str(job.get('cex_unwind', K + 4)), '--no-unwinding-assertions',
+                   '--object-bits', str(job.get('objbits', 10)), '--no-malloc-may-fail', '--stop-on-fail'] + job.get('checks', R.DEFAULT_CHECKS) + flags
+            rc, o, e, dt = R.sh(cmd, job.get('cex_timeout', 300), env=env)
+            if rc not in (0, 10):
+                return ('error', 'concretisation run failed rc=%s %s' % (rc, (e or o)[-300:]))
+            prop, desc, vals = RP.trace_inputs(o, set(n for n, t in hg.inputs))
+            if prop is None:
+                return None
+            stop.set()
+            return ('cex', (prop, desc, vals, hg, htext))
+        from concurrent.futures import ThreadPoolExecutor
+        errs = []
+        hit = None
+        with ThreadPoolExecutor(max_workers=12) as ex:
+            for r_ in ex.map(attempt, list(enumerate(combos))):
+                if r_ is None:
+                    continue
+                if r_[0] == 'cex' and hit is None:
+                    hit = r_[1]
+                elif r_[0] == 'error':
+                    errs.append(r_[1])
+        if hit is None:
+            out['note'] = ('bounded concretisation (K=%d, %d length combinations) found no failing input' % (K, len(combos))) + (('; errors: ' + errs[0]) if errs else '')
             return out
-        prop, desc, vals = RP.trace_inputs(o, set(n for n, t in hg.inputs))
-        if prop is None:
-            out['note'] = 'bounded concretisation (K=%d) found no failing input' % K
-            return out
+        prop, desc, vals, hg, htext = hit
         out['cex_property'] = prop
         out['cex_description'] = desc
         out['inputs'] = {hg.paths.get(n, n): vals.get(n, 0) for n, t in hg.inputs}
@@ -125,7 +161,7 @@ def concretise(job, unit, res, workdir, log):
         elif 'QX-LOWERING-MISMATCH' in o4:
             out['note'] = 'lowered code and real code disagree on this input: extraction problem, not a violation'
             out['lowering_mismatch'] = True
-        elif 'QX-ASSERT-FAILED' in o4 or 'AddressSanitizer' in o4 or 'runtime error' in o4 or rc4 not in (0,):
+        elif 'QX-ASSERT-FAILED' in o4 or 'AddressSanitizer' in o4 or re.search(r'Include/\w+\.hpp:\d+:\d+: runtime error', o4) or (rc4 not in (0,) and 'native.c' not in o4):
             out['reproduced'] = True
         return out
     except (R.Undecided, LowerError) as e:
@@ -303,7 +339,7 @@ def evidence(pid, tier, seed, m, main_res, can_res, wall, nviol, canary_bad, und
             trusted_base=getattr(m, 'TRUSTED', []) + BASE_TRUST,
             functions_under_contract=fns, back_ends=by_solver, jobs=jobs,
             bounded_checks=[dict(name=j['name'], bound=j['bounded'], obligations=j['obligations'], discharged=j['discharged']) for j in bounded],
-            canaries=dict(run=len(can_res), failed_as_required=len(can_res) - len(canary_bad)),
+            canaries=dict(run=len(can_res) + sum(1 for r in main_res if r.canary), failed_as_required=len(can_res) - len(canary_bad) + sum(1 for r in main_res if r.canary)),
             undecided=[dict(name=r.name, reason=r.reason[:300]) for r in undecided],
             assume_statements_in_generated_text=sorted(assumes)[:50],
             samples=samples or ['(no obligations)'],
